@@ -25,7 +25,7 @@ type xmpSpec struct {
 }
 
 func checkC13(p *Prog, r *Report) {
-	r.Explain("The tokenizer's behaviour over all packets (look-ahead windows, quoting, white space) is a run-time matter and is not decided. Decided: NSTBL — the namespace and name tables are mutually inverse over the declared constants: IdentifyNamespace(String(ns)) == ns and IdentifyName(String(n)) == n for every declared constant, by constant folding of the tables (a property whose name is missing from either table is silently dropped); XDISPATCH — for every property of the independent table spec/xmp_props.json, the packet spelling is identified to a name constant, the namespace prefix dispatches in (*XMP).parser to the struct of that namespace, and that struct's parse method has a case for the constant that stores into the field(s) the table assigns; FORMS — attribute form and element form reach the per-namespace parsers through the same function: every call of a parse method is in (*XMP).parser, and in readTag/readSeqTags every successful readAttribute and readTagValue is followed by xmp.parser on every path; QUOTE — wherever the tokenizer compares a byte with a quote constant the byte is at a constant position (the opening quote), and the byte read there is what the search for the closing quote looks for (bytes.IndexByte needle or comparison operand): a value delimited by one quote character may contain the other; RELIDX — an index returned by a search in x[a:] is relative to a: wherever it (or a sum containing it) indexes or slices x itself, a is part of the sum; ROOTSKIP — readRootTag keeps scanning when ReadSlice reports a full buffer without the start of the root element (bytes before the root element are skipped).")
+	r.Explain("The tokenizer's behaviour over all packets (look-ahead windows, quoting, white space) is a run-time matter and is not decided. Decided: NSTBL — the namespace and name tables are mutually inverse over the declared constants: IdentifyNamespace(String(ns)) == ns and IdentifyName(String(n)) == n for every declared constant, by constant folding of the tables (a property whose name is missing from either table is silently dropped); XDISPATCH — for every property of the independent table spec/xmp_props.json, the packet spelling is identified to a name constant, the namespace prefix dispatches in (*XMP).parser to the struct of that namespace, and that struct's parse method has a case for the constant that stores into the field(s) the table assigns; FORMS — attribute form and element form reach the per-namespace parsers through the same function: every call of a parse method is in (*XMP).parser, and in readTag/readSeqTags every successful readAttribute and readTagValue is followed by xmp.parser on every path; QUOTE — wherever the tokenizer compares a byte with a quote constant the byte is at a constant position (the opening quote), and the byte read there is what the search for the closing quote looks for (bytes.IndexByte needle or comparison operand): a value delimited by one quote character may contain the other; RELIDX — an index returned by a search in x[a:] is relative to a: wherever it (or a sum containing it) indexes or slices x itself, a is part of the sum; WINFIT — every look-ahead loop of the XMP reader (Peek(s) with s growing by a constant step) reaches, within the reader's buffer size, a window of at least 1027 bytes: a 1024-byte value with its delimiters is readable before ErrBufferFull ends the growth; ROOTSKIP — readRootTag keeps scanning when ReadSlice reports a full buffer without the start of the root element (bytes before the root element are skipped).")
 	r.Trusted("spec/xmp_props.json (written from the XMP specification)", "bufio.ReadSlice returns ErrBufferFull when the delimiter is not within one buffer")
 	fd := &folder{p: p}
 	ruleRoundTrip(p, r, fd, "NSTBL", "xmp/xmpns", "Namespace", "String", "IdentifyNamespace", true)
@@ -35,6 +35,8 @@ func checkC13(p *Prog, r *Report) {
 	ruleRootSkip(p, r)
 	ruleQuote(p, r)
 	r.Floor("QUOTE", 1)
+	ruleWinFit(p, r)
+	r.Floor("WINFIT", 2)
 	ruleRelIdx(p, r) // no floor: rewriting the one search as a loop removes the instance without breaking anything
 	r.Floor("NSTBL", 100)
 	r.Floor("XDISPATCH", 40)
@@ -622,6 +624,78 @@ func ruleRelIdx(p *Prog, r *Report) {
 				r.Bad("RELIDX", key, at, bad)
 			} else {
 				r.OK("RELIDX", key, at, fmt.Sprintf("%d uses as an index/bound into %s, each with the start offset added", uses, shortVal(sl.X)))
+			}
+		})
+	}
+}
+
+// ruleWinFit: the growing look-ahead windows and the buffer size are three constants that must fit together. For
+// each loop `for { buf, err = br.Peek(s); …; s += step }` in package xmp the largest window not exceeding the
+// bufio.Reader size B (the constant handed to bufio.NewReaderSize) must hold a value of 1024 bytes (the property's
+// documented value size) plus its delimiters.
+func ruleWinFit(p *Prog, r *Report) {
+	sp := p.SSAPkg("xmp")
+	if sp == nil {
+		r.Undecided("WINFIT", "xmp | look-ahead windows", "-", "package not loaded")
+		return
+	}
+	const need = 1024 + 3
+	B := int64(-1)
+	for _, f := range pkgFns(sp, p) {
+		eachCall(f, func(site ssa.CallInstruction) {
+			if isCallTo(site.Common(), "bufio.NewReaderSize") && len(site.Common().Args) == 2 {
+				if k, ok := constInt(site.Common().Args[1]); ok && (B < 0 || k < B) {
+					B = k
+				}
+			}
+		})
+	}
+	if B < 0 {
+		r.Undecided("WINFIT", "xmp | buffer size", "-", "no bufio.NewReaderSize with a constant size found in package xmp")
+		return
+	}
+	for _, f := range pkgFns(sp, p) {
+		loops := findLoops(f)
+		eachCall(f, func(site ssa.CallInstruction) {
+			c := site.Common()
+			sc := c.StaticCallee()
+			if sc == nil || sc.Name() != "Peek" || len(c.Args) != 2 {
+				return
+			}
+			ph, ok := c.Args[1].(*ssa.Phi)
+			if !ok {
+				return
+			}
+			inLoop := false
+			for _, l := range loops {
+				if l.Head == ph.Block() {
+					inLoop = true
+				}
+			}
+			if !inLoop {
+				return
+			}
+			key := fmt.Sprintf("%s | growing Peek window reaches %d bytes within the %d-byte buffer", fnName(f), need, B)
+			at := p.posStr(instrPos(site))
+			ind, ok := inductionOf(ph)
+			if !ok || ind.Step <= 0 {
+				r.Undecided("WINFIT", key, at, "the window size is not a constant-step counter")
+				return
+			}
+			s0, ok := ind.Init.isConst()
+			if !ok {
+				r.Undecided("WINFIT", key, at, "the first window size is not a constant")
+				return
+			}
+			if s0 > B {
+				r.Bad("WINFIT", key, at, fmt.Sprintf("the first window (%d) already exceeds the buffer (%d)", s0, B))
+				return
+			}
+			w := s0 + (B-s0)/ind.Step*ind.Step
+			if w < need {
+				r.Bad("WINFIT", key, at, fmt.Sprintf("windows %d, %d, … by %d: the largest one the %d-byte buffer can serve is %d, so a value of 1024 bytes ends in ErrBufferFull", s0, s0+ind.Step, ind.Step, B, w))
+			} else {
+				r.OK("WINFIT", key, at, fmt.Sprintf("windows start at %d and grow by %d; largest within the buffer: %d", s0, ind.Step, w))
 			}
 		})
 	}
